@@ -9,6 +9,7 @@ package hsrv
 
 import (
 	"context"
+	"encoding/base64"
 	"encoding/json"
 	"errors"
 	"fmt"
@@ -133,6 +134,7 @@ func alphabet() []input {
 	a = append(a, input{name: "auth(plain;from=mallory)", kind: "session", state: "authenticating", id: "echo", scheme: "plain", auth: "obj", from: "mallory@cli.test/home"})
 	a = append(a, input{name: "auth(plain,wrong-password)", kind: "session", state: "authenticating", id: "echo", scheme: "plain", auth: "bad"})
 	a = append(a, input{name: "auth(plain,bad-base64)", kind: "session", state: "authenticating", id: "echo", scheme: "plain", auth: "b64"})
+	a = append(a, input{name: "auth(key,bad-base64)", kind: "session", state: "authenticating", id: "echo", scheme: "key", auth: "b64"})
 	a = append(a, input{name: "auth(key,wrong-key)", kind: "session", state: "authenticating", id: "echo", scheme: "key", auth: "bad"})
 	a = append(a, input{name: "auth(external,wrong-issuer)", kind: "session", state: "authenticating", id: "echo", scheme: "external", auth: "bad"})
 	a = append(a, input{name: "auth(zzz,noauth)", kind: "session", state: "authenticating", id: "echo", scheme: "zzz"})
@@ -171,6 +173,9 @@ func authObjKind(scheme, kind string) interface{} {
 			return map[string]string{"token": "tok", "issuer": "evil"}
 		}
 	case "b64":
+		if scheme == "key" {
+			return map[string]string{"key": "!!!not-base64!!!"}
+		}
 		return map[string]string{"password": "!!!not-base64!!!"}
 	}
 	return authObj(scheme)
@@ -221,15 +226,16 @@ func (in input) bytes(sid string) []byte {
 // ---- observations ------------------------------------------------------------------
 
 type authCall struct {
-	identity     string
-	scheme       string
-	canon        string
-	outcome      int
-	encAt        string // server transport encryption when the callback ran
-	afterFin     bool
-	step         int
-	real         bool // produced by the ServerBuilder's own Authenticate
-	shouldAccept bool // (real only) the presented credential is the one the registered authenticator accepts
+	identity      string
+	scheme        string
+	canon         string
+	outcome       int
+	encAt         string // server transport encryption when the callback ran
+	afterFin      bool
+	step          int
+	real          bool   // produced by the ServerBuilder's own Authenticate
+	innerMismatch string // (real only) the registered authenticators were consulted about something else than the presented credentials
+	shouldAccept  bool   // (real only) the presented credential is the one the registered authenticator accepts
 }
 
 type regCall struct {
@@ -417,21 +423,25 @@ func body(variant string, cfgs []Config, depth int, allowTLSRefusal bool) func(x
 		}
 		if cfg.RealAuth {
 			// the builder's own dispatch over authenticators that accept exactly one credential
+			var inner []string // what the registered authenticators were asked about during one Authenticate call
 			b := lime.NewServerBuilder().
 				EnableGuestAuthentication().
 				EnablePlainAuthentication(func(ctx context.Context, id lime.Identity, pw string) (*lime.AuthenticationResult, error) {
+					inner = append(inner, "plain:"+id.String()+":"+pw)
 					if id.Name == "alice" && pw == "secret" {
 						return lime.MemberAuthenticationResult(), nil
 					}
 					return lime.UnknownAuthenticationResult(), nil
 				}).
 				EnableKeyAuthentication(func(ctx context.Context, id lime.Identity, key string) (*lime.AuthenticationResult, error) {
+					inner = append(inner, "key:"+id.String()+":"+key)
 					if id.Name == "alice" && key == "key" {
 						return lime.MemberAuthenticationResult(), nil
 					}
 					return lime.UnknownAuthenticationResult(), nil
 				}).
 				EnableExternalAuthentication(func(ctx context.Context, id lime.Identity, token, issuer string) (*lime.AuthenticationResult, error) {
+					inner = append(inner, "external:"+id.String()+":"+token+"|"+issuer)
 					if id.Name == "alice" && token == "tok" && issuer == "iss" {
 						return lime.MemberAuthenticationResult(), nil
 					}
@@ -446,7 +456,25 @@ func body(variant string, cfgs []Config, depth int, allowTLSRefusal bool) func(x
 				if r.srvTr != nil {
 					c.encAt = string(r.srvTr.Encryption())
 				}
+				inner = nil
 				res, err := realAuth(ctx, id, a)
+				// the registered authenticator may only be consulted about what the peer presented
+				var wantInner []string
+				switch v := a.(type) {
+				case *lime.PlainAuthentication:
+					if d, e := base64.StdEncoding.DecodeString(v.Password); e == nil {
+						wantInner = []string{"plain:" + id.String() + ":" + string(d)}
+					}
+				case *lime.KeyAuthentication:
+					if d, e := base64.StdEncoding.DecodeString(v.Key); e == nil {
+						wantInner = []string{"key:" + id.String() + ":" + string(d)}
+					}
+				case *lime.ExternalAuthentication:
+					wantInner = []string{"external:" + id.String() + ":" + v.Token + "|" + v.Issuer}
+				}
+				if strings.Join(inner, ",") != strings.Join(wantInner, ",") {
+					c.innerMismatch = fmt.Sprintf("authenticators consulted about %q, the peer presented %q", inner, wantInner)
+				}
 				switch {
 				case err != nil:
 					c.outcome = 3
@@ -464,7 +492,7 @@ func body(variant string, cfgs []Config, depth int, allowTLSRefusal bool) func(x
 			}
 		}
 		register := func(ctx context.Context, cand lime.Node, c *lime.ServerChannel) (lime.Node, error) {
-			rc := regCall{candidate: cand.String(), outcome: rt.Choose(3)}
+			rc := regCall{candidate: cand.String(), outcome: rt.Choose(4)}
 			r.srvChan = c
 			var n lime.Node
 			var err error
@@ -475,6 +503,9 @@ func body(variant string, cfgs []Config, depth int, allowTLSRefusal bool) func(x
 				n = lime.Node{Identity: lime.Identity{Name: "other", Domain: "srv.test"}, Instance: "x"}
 			case 2:
 				err = errors.New("register callback error")
+			case 3:
+				// an address without a domain: still the address to announce, unaltered
+				n = lime.Node{Identity: lime.Identity{Name: "nodomain"}, Instance: "x"}
 			}
 			rc.returned = n.String()
 			r.regs = append(r.regs, rc)
@@ -1002,6 +1033,9 @@ func judge(prop string) func(x *harness.X, res *rt.Result) {
 							x.Failf("C03:unoffered-scheme-authenticated", "Authenticate called for scheme %q which was not offered %s", ac.scheme, script())
 						}
 					}
+					if want("C03") && ac.real && ac.innerMismatch != "" {
+						x.Failf("C03:builder-authenticator-credentials", "for (%s,%s,%s): %s %s", ac.identity, ac.scheme, ac.canon, ac.innerMismatch, script())
+					}
 					if want("C03") && ac.real && (ac.outcome == 0) != ac.shouldAccept {
 						x.Failf("C03:builder-authenticate-dispatch", "the ServerBuilder's Authenticate returned outcome %d for (%s,%s,%s) but the registered authenticator accepts it: %v %s", ac.outcome, ac.identity, ac.scheme, ac.canon, ac.shouldAccept, script())
 					}
@@ -1194,6 +1228,9 @@ func authObjTyped(in input) lime.Authentication {
 			return &lime.ExternalAuthentication{Token: "tok", Issuer: "evil"}
 		}
 	case "b64":
+		if in.scheme == "key" {
+			return &lime.KeyAuthentication{Key: "!!!not-base64!!!"}
+		}
 		return &lime.PlainAuthentication{Password: "!!!not-base64!!!"}
 	}
 	switch in.scheme {
@@ -1290,6 +1327,124 @@ type pairRun struct {
 	cliComp    string
 	srvComp    string
 	snap       bool
+}
+
+// ---- one server, several connections over different transports ----------------------------
+//
+// The offer is "configured AND supported by the connection": it must be computed per
+// connection and must not depend on which other connections the same server served before.
+// A real Server with both encryption options configured (in either order) listens on a pipe
+// listener (TLS-capable TCP transport) and on the in-process listener; three scripted peers
+// connect one after the other over every sequence of the two transports and present a new
+// session; the server's first answer on each is compared with the configured lists.
+
+type connsRun struct {
+	order   []string
+	enc     []string
+	answers []map[string]interface{}
+	kinds   []string
+	snap    bool
+}
+
+func connsBody(x *harness.X) {
+	lib.Reset()
+	r := &connsRun{}
+	x.Vars["conns"] = r
+	encs := [][]lime.SessionEncryption{{lime.SessionEncryptionTLS, lime.SessionEncryptionNone}, {lime.SessionEncryptionNone, lime.SessionEncryptionTLS}}[rt.Choose(2)]
+	for _, e := range encs {
+		r.enc = append(r.enc, string(e))
+	}
+	for i := 0; i < 3; i++ {
+		r.kinds = append(r.kinds, []string{"tcp", "inproc"}[rt.Choose(2)])
+	}
+	sc := lime.NewServerConfig()
+	sc.Node = lib.ServerNode
+	sc.SchemeOpts = []lime.AuthenticationScheme{lime.AuthenticationSchemeGuest}
+	sc.EncryptOpts = encs
+	sc.CompOpts = []lime.SessionCompression{lime.SessionCompressionNone}
+	sc.Backlog, sc.ChannelBufferSize = 1, 1
+	sc.Authenticate, sc.Register = lib.GuestOK, lib.RegisterSame
+	pl := lib.NewPipeListener(&lime.TCPConfig{TLSConfig: lib.TLSServerConfig()}, 64<<10, 1)
+	inaddr := lime.InProcessAddr("hsrv-conns")
+	srv := lime.NewServer(sc, &lime.EnvelopeMux{}, lime.NewBoundListener(pl, lib.PipeAddr("p")),
+		lime.NewBoundListener(lime.NewInProcessTransportListener(inaddr), inaddr))
+	go func() { _ = srv.ListenAndServe() }()
+	rt.Quiesce()
+	for _, k := range r.kinds {
+		var ans map[string]interface{}
+		if k == "tcp" {
+			conn := pl.Dial()
+			p := lib.NewRawPeer(conn)
+			p.Block = true
+			_ = p.Send([]byte(`{"state":"new"}`))
+			if m, ok := p.ReadOne(30 * time.Second); ok {
+				ans = m
+			}
+			_ = conn.Close()
+		} else {
+			t, ok := lib.TryDialInProc(inaddr, 1)
+			if ok {
+				ctx, cancel := context.WithTimeout(context.Background(), 30*time.Second)
+				_ = t.Send(ctx, &lime.Session{State: lime.SessionStateNew})
+				if env, err := t.Receive(ctx); err == nil {
+					if b, err := json.Marshal(env); err == nil {
+						_ = json.Unmarshal(b, &ans)
+					}
+				}
+				cancel()
+				_ = t.Close()
+			}
+		}
+		r.answers = append(r.answers, ans)
+		x.Obs("%s connection: first answer state=%s encryptionOptions=%v", k, lib.Str(ans, "state"), ans["encryptionOptions"])
+		rt.Quiesce()
+	}
+	_ = srv.Close()
+	rt.Quiesce()
+	r.snap = true
+	rt.Stop()
+}
+
+func connsFinal(x *harness.X, res *rt.Result) {
+	r, _ := x.Vars["conns"].(*connsRun)
+	if r == nil {
+		return
+	}
+	hist := fmt.Sprintf("[configured encryption %v; connections %v; %s]", r.enc, r.kinds, strings.Join(x.Log(), " | "))
+	if res.Crash != "" {
+		x.Failf("C09:panic:"+res.CrashSite, "%s %s", strings.SplitN(res.Crash, "\n", 2)[0], hist)
+		return
+	}
+	if !r.snap {
+		return
+	}
+	strs := func(v interface{}) []string {
+		var o []string
+		l, _ := v.([]interface{})
+		for _, e := range l {
+			o = append(o, fmt.Sprint(e))
+		}
+		return o
+	}
+	for i, k := range r.kinds {
+		ans := r.answers[i]
+		switch k {
+		case "tcp":
+			// both configured options are supported: the offer is the configured list
+			if lib.Str(ans, "state") != "negotiating" || strings.Join(strs(ans["encryptionOptions"]), ",") != strings.Join(r.enc, ",") {
+				x.Failf("C09:offer-depends-on-earlier-connections", "connection %d (tcp, TLS-capable) was answered state=%q encryptionOptions=%v, configured and supported: %v %s", i, lib.Str(ans, "state"), ans["encryptionOptions"], r.enc, hist)
+			}
+			if lib.Str(ans, "state") == "negotiating" && strings.Join(strs(ans["compressionOptions"]), ",") != "none" {
+				x.Failf("C09:offer-compression", "connection %d (tcp) was offered compressionOptions=%v, configured and supported: [none] %s", i, ans["compressionOptions"], hist)
+			}
+		default:
+			// the in-process transport supports no encryption: nothing to negotiate, or an offer of exactly [none]
+			st := lib.Str(ans, "state")
+			if !(st == "authenticating" || st == "negotiating" && strings.Join(strs(ans["encryptionOptions"]), ",") == "none") {
+				x.Failf("C09:offer-inproc", "connection %d (in-process) was answered state=%q encryptionOptions=%v %s", i, st, ans["encryptionOptions"], hist)
+			}
+		}
+	}
 }
 
 // pairBody runs the real client channel against the real server channel over a virtual
@@ -1462,6 +1617,7 @@ func Main(prop string) {
 		add("channel/tls-only/d5", "channel", c, 5, true, -1, 0)
 	case "C09":
 		scs = append(scs, harness.Scenario{Name: "pair/library-both-roles", Opt: opt, Quick: 0, Thorough: 0, Body: pairBody, Final: pairFinal})
+		scs = append(scs, harness.Scenario{Name: "server/3-connections-mixed-transports", Opt: opt, Quick: 0, Thorough: 0, Body: connsBody, Final: connsFinal})
 		add("server/all/d4", "server", all, 4, false, 0, -1)
 		add("channel/all/d4", "channel", all, 4, false, 0, -1)
 		add("server/all/d6", "server", all, 6, true, -1, 0)
